@@ -39,7 +39,7 @@ def wild(draw):
     feats = []
     for (_n, p), k in zip(case["params"], case["kinds"]):
         if draw(st.integers(0, 3)) == 0:
-            ph = draw(st.sampled_from(TRIGGER_PHRASES + ["defaults to 10", "defaults to 'abc'", "defaults to True", "path", "a int/float", "the input/output"]))
+            ph = draw(st.sampled_from(TRIGGER_PHRASES + ["defaults to 10", "defaults to 'abc'", "defaults to True", "path", "a int/float", "the input/output", "(defaults to 10)", "(default: 'abc')", "(Defaults to True)"]))
             base = (p.get("doc") or "alpha").rstrip(".")
             shape = draw(st.sampled_from(["mid", "end-comma", "own-sentence", "start"]))
             p["doc"] = {"mid": "%s %s %s" % (base, ph, draw(st.sampled_from(WORDS))), "end-comma": "%s, %s" % (base, ph), "own-sentence": "%s. %s." % (base, ph[0].upper() + ph[1:]), "start": "%s %s" % (ph, base)}[shape]
@@ -148,7 +148,8 @@ def param_taints(p, fmt=None, forced_default=False):
          late; with a negative number the function emitters then write un-parseable code);
       U3 `dictionary of` - class / pydantic (the probe of the guessed type raises on the second round);
       U4 a default fragment on a parameter whose declared type is not int / float / str (Literal, bool, List ...);
-      U5 a default fragment whose value is glued to the odd ending `!` or `...)` (the other eight endings are stable).
+      U5 a default fragment whose value is glued to the odd ending `!` or `...)` (the other eight endings are stable);
+      U6 a slash inside the third word; U7 a parenthesised fragment `(defaults to X)` (any position).
     Default fragments at the end of a sentence / after a comma and trigger words without a default are STRICT."""
     import re
 
@@ -169,6 +170,15 @@ def param_taints(p, fmt=None, forced_default=False):
             t.add("P47")
         if "dictionary of" in low and fmt in (None, "class", "pydantic"):
             t.add("P47")
+        pm = re.search(r"\([Dd]efaults?(?::| to| is)\s+[^)]*\)", doc)
+        if pm:
+            # U7: a PARENTHESISED fragment `(defaults to X)` / `(default: 'x')`.  Measured over 3 phrases x 4 positions x
+            # 7 endings x 7 (type, default) pairs: unstable in most cells (the scanner extracts '' or the value one round
+            # late; at the very start the parameter also changes place; in google / numpydoc the forced defaults of the
+            # entries behind it come and go), so the whole phrase shape is relaxed - un-parenthesised fragments are not.
+            t.update(("P47", "P47:spill"))
+            if pm.start() == 0:
+                t.add("P47:order")
         if gen_ir.third_word_slash(doc):
             t.add("P47")  # U6: `word word int/float ...` - the ad-hoc slash syntax re-types the parameter (Union[int,float])
     d = p.get("default")
@@ -226,8 +236,8 @@ def oracle(case):
                 with core.quiet():
                     nxt = one_round(fmt, cur)
             except Exception as e:
-                if any_taint:
-                    for f in sorted(any_taint):
+                if any_taint - {"P47:order", "P47:spill"}:
+                    for f in sorted(any_taint - {"P47:order", "P47:spill"}):
                         r.covered(f)
                     break
                 r.fail("round-raises[%s]" % fmt, "[%s] round %d raises %s on its own output" % (fmt, rnd, core.exc_bucket(e)))
@@ -243,10 +253,12 @@ def oracle(case):
                     t2, spill = {}, False
                     for n, p in case["params"]:
                         t2[n] = set(taints[n])
-                        if spill and "default" not in p:
+                        if spill and ("default" not in p or "P47:spill" in set().union(*taints.values())):
                             t2[n].add("P47")
                         if DEFAULT_FRAGMENT.search(p.get("doc") or "") and "default" not in p:
                             spill = True  # (stable or not) the fragment gives this parameter a default on round 1
+                        if "P47:spill" in taints[n]:
+                            spill = True  # U8: the extracted '' comes and goes, and with it the forced defaults behind it
                 bad = _uncovered(r, fmt, case, t2, a, b)
                 if bad:
                     r.fail("not-fixpoint[%s]%s" % (fmt, bad[0]), "[%s] round %d: %s" % (fmt, rnd, bad[1]))
@@ -263,12 +275,15 @@ def _uncovered(r, fmt, case, taints, a, b):
     """-> None when every difference lies in a relaxed (parameter, finding) class, else (tag, detail)"""
     na, nb = [n for n, _ in a["params"]], [n for n, _ in b["params"]]
     if na != nb:
+        if sorted(na) == sorted(nb) and any("P47:order" in t for t in taints.values()) and fmt in ("class", "pydantic", "function", "funcdoc"):
+            r.covered("P47")
+            return None
         return ("names", "%s -> %s" % (na, nb))
     for (n, p), (_m, q) in zip(a["params"], b["params"]):
         if p != q:
             t = taints.get(n, set())
-            if t:
-                for f in sorted(t):
+            if t - {"P47:order", "P47:spill"}:
+                for f in sorted(t - {"P47:order", "P47:spill"}):
                     r.covered(f)
                 continue
             keys = sorted((k for k in set(p) | set(q) if p.get(k, "<absent>") != q.get(k, "<absent>")), key=str)
